@@ -17,8 +17,10 @@ Direct oracle (implementation only, independent dump of the objects' attributes)
 Correspondence (model Model/Fll.v evaluated inside Coq at the token instance): the engine is converted to an
 `fll_engine` literal whose numbers are the printed tokens plus the implementation's Op.is_close(x, 1.0) bit;
   export d e = t1.split("\\n")  (string equality, line by line);
-  import_ (lines of t1) = literal of e2   (or the error class);  export d (that) = t2;
-  the same for variant texts (import result / error class, export of the result).
+  import_checked (lines of t1) = literal of e2   (or the error class);  export d (that) = t2;
+  the same for variant texts (import result / error class, export of the result).  `import_checked` (Model/FllChecked.v)
+  is `import_` plus Rule.load (C16 model) against the engine under construction and Function.load (C17 model), so the
+  variants that mutilate a rule, move the rule blocks in front of the variables or damage a formula are compared too.
 """
 from __future__ import annotations
 
@@ -31,7 +33,7 @@ import numpy as np
 
 import vlib
 
-COQ_TARGETS = ["Proofs/FllProofs.vo"]
+COQ_TARGETS = ["Proofs/FllProofs.vo", "Proofs/FllCheckedProofs.vo"]
 
 KEYWORDS = {"if", "then", "with", "is", "and", "or", "any", "not", "very", "somewhat", "seldom", "extremely", "none", "x", "term", "rule"}
 HEDGES = ["not", "very", "somewhat", "seldom", "extremely"]
@@ -568,7 +570,7 @@ CASE_TYPE = "nat * list string * string * string * option (fll_engine tnum) * li
 # (decimals, closeness table, "1.000", "0.000", engine or None, text lines, expected import, re-export equals the text, expected re-export otherwise)
 CHECKER = ("fun c => let '(d, tbl, one, zero, e, lines, expected, same, again) := c in "
            "match e with Some e => lines_eqb (tn_export d e) lines | None => true end "
-           "&& (let r := tn_import tbl one zero lines in tn_result_eqb r expected "
+           "&& (let r := tn_import_checked tbl one zero lines in tn_result_eqb r expected "
            "&& match r, again with Ok e2, Some t2 => lines_eqb (tn_export d e2) t2 | Ok e2, None => negb same || lines_eqb (tn_export d e2) lines | _, _ => true end)")
 
 
@@ -678,8 +680,9 @@ def variants(rng, text: str, d: int):
         out.append(("reject", "blank-before-colon-of-term-or-rule", "\n".join(v), True))
         i = rng.choice(cands)
         v = list(lines)
-        # (a Function formula is left alone: whether a mutilated formula loads is C17's subject, not modelled here)
-        if v[i].lstrip().startswith("term:") and " Function " not in v[i]:
+        if v[i].lstrip().startswith("term:") and " Function " in v[i]:
+            pass
+        elif v[i].lstrip().startswith("term:"):
             parts = v[i].split(" ")
             # "  term: name Class params": drop the last parameter or rename the class
             if rng.random() < 0.5 and len(parts) > 5:
@@ -719,6 +722,56 @@ def variants(rng, text: str, d: int):
                 if pool:
                     v[i] = key + ": " + rng.choice(pool)
                     out.append(("any", "operator-bare-class", "\n".join(v), True))
+    # Function.load of a mutilated (or merely rewritten) formula (model: Formula.parse_text, C17)
+    fnl = [i for i, l in enumerate(lines) if l.lstrip().startswith("term:") and " Function " in l]
+    if fnl:
+        i = rng.choice(fnl)
+        v = list(lines)
+        head, _, formula = v[i].partition(" Function ")
+        toks = formula.split()
+        k = rng.random()
+        if k < 0.35 and len(toks) > 1:
+            formula = " ".join(toks[:-1])
+        elif k < 0.6:
+            formula = rng.choice(["( " + formula, formula + " )", formula + " +", "* " + formula, formula + " " + formula, "max( " + formula + " )", "sin " + formula, "~", "( )", "1.000 2.000"])
+        else:
+            formula = rng.choice(["pi", "2.000 ^ 3.000 ^ 2.000", "max(" + formula + ", 1.000)", "~ " + formula, "(" + formula + ")", "a and b or c", "sin(" + formula + ") * cos(1.000)"])
+        v[i] = head + " Function " + formula
+        out.append(("any", "formula-mutated", "\n".join(v), True))
+    # Rule.load against the engine under construction (model: RuleText.load_rule, C16)
+    rl = [i for i, l in enumerate(lines) if l.lstrip().startswith("rule:")]
+    if rl:
+        i = rng.choice(rl)
+        v = list(lines)
+        toks = v[i].split()
+        k = rng.random()
+        j = toks.index("then")
+        if k < 0.2:
+            toks[j - 1] = "zzq"                               # unknown term in the antecedent
+        elif k < 0.35:
+            toks[1 + 1] = "zzv"                               # unknown variable ("rule:", "if", variable)
+        elif k < 0.5:
+            del toks[j - 1]                                   # antecedent ends in `is` or a hedge
+        elif k < 0.6:
+            toks[j + 1] = "zzo"                               # unknown output variable
+        elif k < 0.7:
+            toks.insert(j, rng.choice(["and", "or", ")", "("]))
+        elif k < 0.8:
+            toks[3] = "are"                                   # `is` replaced
+        elif k < 0.9:
+            toks = toks[: j + 1] + toks[j + 1 : j + 4] + ["and"] + toks[j + 1 : j + 4] + toks[j + 4 :]   # conclusion repeated: fine
+        else:
+            toks = toks[:2] + ["("] + toks[2:j] + [")"] + toks[j:]                                          # redundant parentheses: fine
+        v[i] = "  " + " ".join(toks)
+        out.append(("any", "rule-mutated", "\n".join(v), True))
+    # rule blocks moved in front of the variables: their rules are loaded against an engine without variables
+    if rl:
+        hdr = [i for i, l in enumerate(lines) if l and not l.startswith(" ")]
+        first_var = next((i for i in hdr if lines[i].startswith(("InputVariable", "OutputVariable"))), None)
+        first_rb = next((i for i in hdr if lines[i].startswith("RuleBlock")), None)
+        if first_var is not None and first_rb is not None and first_var < first_rb:
+            v = lines[:first_var] + [l for l in lines[first_rb:] if l] + lines[first_var:first_rb] + [""]
+            out.append(("any", "rule-blocks-before-variables", "\n".join(v), True))
     tl = [i for i, l in enumerate(lines) if l.lstrip().startswith("term:") and " Function" not in l]
     if tl:
         i = rng.choice(tl)
@@ -918,7 +971,7 @@ def run(ctx, build, verdict, ev):
     # the model inside Coq
     mism = []
     if not build.translation_errors:
-        bad, log = vlib.run_coq_cases(ctx.work, "c14", "From VF Require Import GenNorm GenTerm Core Fll.\nOpen Scope string_scope.", [(CASE_TYPE, CHECKER, cases)], chunk=max(40, min(150, -(-len(cases) // vlib.NPROC))))
+        bad, log = vlib.run_coq_cases(ctx.work, "c14", "From VF Require Import GenNorm GenTerm Core Fll FllChecked.\nOpen Scope string_scope.", [(CASE_TYPE, CHECKER, cases)], chunk=max(40, min(150, -(-len(cases) // vlib.NPROC))))
         for j in bad:
             if j < 0:
                 verdict.add_broken("correspondence", "C14:coq-evaluation", log)
@@ -953,7 +1006,8 @@ def run(ctx, build, verdict, ev):
         "engines whose Constant / Linear / Function terms carry a non-unit `height` attribute (not offered by their constructors) are outside the property: "
         "the direct oracle skips them; they are still compared with the model (Constant: printed height -> the importer raises ValueError; Linear: the height is read back as "
         "one more coefficient; Function: the height is dropped) — proved about the model as C14_constant_height_rejected and by `normalize`",
-        "not modelled: Rule.load against the engine and Function.load of a formula (both leave the text unchanged; the model accepts a superset of texts)",
+        "the model side of the correspondence is `import_checked` (Model/FllChecked.v): `import_` of Model/Fll.v plus Rule.load (RuleText.load_rule, C16) against the engine under construction "
+        "and Function.load (Formula.parse_text, C17), so texts rejected because a rule does not load or a formula is ill-formed are compared too; C14b_import_checked_refines ties it to `import_`",
     ]
 
 
